@@ -13,7 +13,11 @@ generator's own preprocessing) with the set-typed attributes of the marshalling 
 
 Tie (every run): (i) the model's sort pipelines vs jinja's `do_sort` on include-like strings;
 (ii) the real API in fresh processes under several PYTHONHASHSEED values: {path: sha256} of all targets,
-report, diagnostics must be equal; (iii) generated histories on one API object (context reuse, equal
+report, diagnostics (class, position, text) must be equal — for accepted inputs and for *refused* ones
+(>= 2 targets without their glue generator section, several invalid configuration values, generate for
+unconfigured / unknown targets, several IDL errors spread over files; set-typed option `default_deriving`);
+the targets each context configures and which "Missing configuration" refusal it gets are predicted by
+the model (`c10.refusal`: registry order filtered by membership, `refusal_set_order_irrelevant`); (iii) generated histories on one API object (context reuse, equal
 and different configurations interleaved, permuted target order, repeated generation, reports) vs
 fresh-process baselines for every (configuration, program, target): the model (`c10.run`) predicts the
 written paths of every call and which calls equal the baseline; equal content identity => equal digest.
@@ -42,6 +46,11 @@ THEOREMS = [
     "Pydjinni.SysC.set_order_irrelevant",
     "Pydjinni.SysC.legacy_sort_leaks_order",
     "Pydjinni.SysC.sorted_loops_order_irrelevant",
+    "Pydjinni.SysC.configuredTargets_perm",
+    "Pydjinni.SysC.refusal_set_order_irrelevant",
+    "Pydjinni.SysC.bySet_leaks_order",
+    "Pydjinni.SysC.refusal_none_iff",
+    "Pydjinni.SysC.wellConfigured_iff_no_refusal",
     "Pydjinni.SysC.generateGens_genCfg",
     "Pydjinni.SysC.generateGens_state_irrelevant",
     "Pydjinni.SysC.generate_history_free",
@@ -183,6 +192,9 @@ def seed_cases(ctx):
         prog = pg.program()
         targets = list(sysgen.TARGETS)
         opts = sysgen.make_options(r, targets, out_kind="rel", naming=r.choice(["default", "random"]), report="processed.yaml")
+        if i % 5 == 4:
+            # a set-typed configuration value
+            opts["generate"]["default_deriving"] = r.choice([["eq"], ["eq", "ord"], ["ord", "eq"]])
         files = dict(prog["files"])
         if i % 7 == 3:
             # a program with diagnostics: the same errors, in the same order, under every seed
@@ -191,13 +203,94 @@ def seed_cases(ctx):
     return cases
 
 
+GLUE = {"java": "jni", "objc": "objcpp"}
+BAD_VALUES = [("cpp", "out", None), ("java", "package", None), ("java", "identifier", {"type": "no_such_style"}), ("jni", "namespace", None),
+              ("objc", "out", None), ("objcpp", "namespace", None), ("cppcli", "namespace", None), ("yaml", "out", None),
+              ("cpp", "no_such_option", 1), ("jni", "identifier", {"file": {"style": "sideways"}})]
+
+
+def refused_cases(ctx):
+    """Inputs the tool *refuses*: the refusal (which diagnostic, for which key, where) is part of the observable output
+    and has to be the same in every process. One case = files x options x calls whose outcome is a diagnostic:
+      missing-glue        >= 1 (mostly >= 2) configured targets lack the section of their glue generator -> `parse` refuses
+      invalid-values      several sections carry invalid / missing values                            -> `configure` refuses
+      generate-unconfigured  complete configuration, `generate` for targets that are not configured / unknown
+      broken-idl          several unresolvable references / duplicate declarations spread over the files of a program"""
+    cases = []
+    for i in range(ctx.n(16, 100)):
+        r = random.Random(f"{ctx.seed}/c10/refused/{i}")
+        kind = ["missing-glue", "missing-glue", "invalid-values", "generate-unconfigured", "broken-idl"][i % 5]
+        pg = sysgen.ProgGen(r, stress="plain", multi_file=(kind == "broken-idl" and r.random() < 0.6), max_decls=r.choice([2, 4]))
+        prog = pg.program()
+        files = dict(prog["files"])
+        targets = r.sample(sysgen.TARGETS, r.choice([2, 3, 4, 5]))
+        if kind == "missing-glue":
+            for t in r.sample(list(GLUE), r.choice([1, 2, 2, 2])):
+                if t not in targets:
+                    targets.append(t)
+            r.shuffle(targets)
+        opts = sysgen.make_options(r, targets, out_kind="rel", naming="default", report="processed.json", extras=False)
+        gen = opts["generate"]
+        # the order in which the sections are written down is part of the input; it must not matter either way
+        order = list(gen)
+        r.shuffle(order)
+        opts = {"generate": {k: gen[k] for k in order}}
+        gen = opts["generate"]
+        calls = [{"op": "parse", "ctx": 0, "idl": prog["root"]}]
+        meta = {"kind": "refused:" + kind, "targets": targets, "features": []}
+        if kind == "missing-glue":
+            glue_targets = [t for t in targets if t in GLUE]
+            drop = r.sample(glue_targets, r.choice([len(glue_targets), len(glue_targets), 1]))
+            for t in drop:
+                gen.pop(GLUE[t], None)
+            meta["features"] = [f"targets-without-glue:{len(drop)}"]
+        elif kind == "invalid-values":
+            n = 0
+            for sec, key, val in r.sample(BAD_VALUES, len(BAD_VALUES)):
+                if sec in gen and n < 3:
+                    if val is None:
+                        gen[sec].pop(key, None)
+                    else:
+                        gen[sec][key] = val
+                    n += 1
+            meta["features"] = [f"invalid-values:{n}"]
+        elif kind == "generate-unconfigured":
+            others = [t for t in sysgen.TARGETS if t not in targets] + ["swift", ""]
+            calls += [{"op": "generate", "gc": 0, "target": t} for t in r.sample(others, min(2, len(others)))]
+            calls += [{"op": "generate", "gc": 0, "target": targets[0]}]
+        else:
+            fs = sorted(files)
+            for k in range(r.choice([2, 3])):
+                f = r.choice(fs)
+                files[f] += r.choice([f"\nbroken{k} = record {{ a: no_such_type{k}; b: list<also_missing>; }}\n",
+                                      f"\ndup{k} = enum {{ item_a; }}\ndup{k} = enum {{ item_b; }}\n",
+                                      f"\nnamespace lost {{ holder{k} = interface +cpp {{ m0(p0: .nowhere.t{k}) -> missing_ret; }} }}\n"])
+            meta["features"] = [f"broken-files:{len(fs)}"]
+        cases.append(({"files": files, "cwd": ".", "contexts": [opts], "calls": calls, "normalized": True}, meta))
+    return cases
+
+
+def diag_view(rec):
+    return [rec["ok"], (rec["exc"] or {}).get("cls"), (rec["exc"] or {}).get("msg"), rec.get("skipped"),
+            [(d["cls"], d["file"], d["line"], d["col"], d.get("msg")) for d in rec["diags"]]]
+
+
 def obs_digest(obs):
-    """what C10 observes of one run: {path: digest} of everything written, the diagnostics, exception classes"""
+    """what C10 observes of one run: {path: digest} of everything written; verdict, exception class, positions and text
+    (sandbox root replaced) of every diagnostic of `configure` and of every call; the targets each context configures"""
     files, diags = {}, []
+    for rec in obs.get("configure", []):
+        diags.append(["configure"] + diag_view(rec))
     for rec in obs["calls"]:
         files.update(rec.get("files", {}))
-        diags.append([rec["ok"], (rec["exc"] or {}).get("cls"), [(d["cls"], d["file"], d["line"], d["col"]) for d in rec["diags"]]])
-    return {"files": files, "diags": diags}
+        diags.append(diag_view(rec))
+    return {"files": files, "diags": diags, "configured": [m.get("configured_targets") for m in obs["meta"]]}
+
+
+def quoted_keys(msg):
+    """the configuration keys a diagnostic names: last component of every quoted dotted name"""
+    import re
+    return sorted(q.split(".")[-1] for q in re.findall(r"'([A-Za-z_.]+)'", msg or ""))
 
 
 # -- histories ------------------------------------------------------------------------------------
@@ -323,10 +416,11 @@ def run(ctx):
     ctx.stats["sort_lists"] = len(lists)
 
     # ---- (K ii) hash seeds ------------------------------------------------------------------------
-    cases = seed_cases(ctx)
+    cases = seed_cases(ctx) + refused_cases(ctx)
     seeds = HASHSEEDS_QUICK if ctx.quick else [str(i) for i in range(16)]
     per_seed = {s: sysgen.run_jobs(ctx, [c[0] for c in cases], hashseed=s, tag="c10s") for s in seeds}
     rawset = 0
+    refusal_reqs, refusal_meta, refusal_breaks = [], [], []
     for i, (job, meta) in enumerate(cases):
         views = {}
         for s in seeds:
@@ -340,15 +434,47 @@ def run(ctx):
         ctx.stat("seed_runs", len(seeds))
         ctx.stat("seed_files_compared", len(views[seeds[0]]["files"]) * len(seeds))
         base = views[seeds[0]]
+        if meta["kind"].startswith("refused:"):
+            ctx.stat("refused_" + meta["kind"].split(":")[1])
+            refused_n = sum(1 for d in base["diags"] if not d[-5])
+            ctx.stat("refused_runs_with_a_diagnostic", 1 if refused_n else 0)
         for s in seeds[1:]:
             v = views[s]
-            if v != base:
+            if {k: v[k] for k in ("files", "diags")} != {k: base[k] for k in ("files", "diags")}:
                 diff_paths = sorted(p for p in set(base["files"]) | set(v["files"]) if base["files"].get(p) != v["files"].get(p))
-                what = (f"bytes depend on PYTHONHASHSEED: {len(diff_paths)} file(s) differ between seed {seeds[0]} and seed {s}, first {diff_paths[:3]}"
-                        if diff_paths else f"diagnostics depend on PYTHONHASHSEED (seed {seeds[0]} vs {s})")
-                key = "nondeterministic:hashseed" + (":case-insensitive-sort" if unsorted and diff_paths else "")
+                if diff_paths:
+                    what = f"bytes depend on PYTHONHASHSEED: {len(diff_paths)} file(s) differ between seed {seeds[0]} and seed {s}, first {diff_paths[:3]}"
+                    key = "nondeterministic:hashseed" + (":case-insensitive-sort" if unsorted else "")
+                else:
+                    k = next(i for i, (a, b) in enumerate(zip(base["diags"], v["diags"])) if a != b)
+                    what = (f"diagnostics depend on PYTHONHASHSEED ({meta['kind']}): seed {seeds[0]} gives {json.dumps(base['diags'][k])[:220]}, "
+                            f"seed {s} gives {json.dumps(v['diags'][k])[:220]}")
+                    key = "nondeterministic:hashseed:diagnostics"
                 ctx.report(key, what, {"job": job, "meta": meta, "seeds": [seeds[0], s], "differing": diff_paths[:10], "kind": "seeds"})
                 break
+        # ---- correspondence: the targets a context configures (registry order, whatever the set order) and which refusal it gets
+        if job["contexts"] and all("fatal" not in per_seed[s][i] for s in seeds):
+            keys = [k for k in job["contexts"][0]["generate"] if k in tables["writes_header"]]
+            refusal_reqs.append({"op": "c10.refusal", "keys": keys})
+            refusal_meta.append((job, meta, {s: per_seed[s][i] for s in seeds}))
+    for (job, meta, obss), a in zip(refusal_meta, ctx.driver.batch(refusal_reqs)):
+        if "error" in a:
+            raise RuntimeError(f"driver error {a}")
+        for s, o in obss.items():
+            if not o["configure"][0]["ok"]:
+                continue
+            if o["meta"][0].get("configured_targets") != a["targets"]:
+                refusal_breaks.append({"what": "configured_targets of the context", "seed": s, "impl": o["meta"][0].get("configured_targets"),
+                                       "model": a["targets"], "options": job["contexts"][0]})
+            p = o["calls"][0]
+            got = quoted_keys((p["exc"] or {}).get("msg")) if (p["exc"] or {}).get("cls") == "ConfigurationException" else None
+            want = sorted([a["refused"]["target"], a["refused"]["generator"]]) if a["refused"] else None
+            if got != want:
+                refusal_breaks.append({"what": "refusal of an incompletely configured generate section (keys named by the diagnostic)", "seed": s,
+                                       "impl": (p["exc"] or {}).get("msg"), "model": a["refused"], "options": job["contexts"][0]})
+            ctx.stat("refusal_predictions_compared")
+    if list(tables["targets"]) != ctx.driver.one({"op": "c10.refusal", "keys": list(tables["writes_header"])})["targets"]:
+        refusal_breaks.append({"what": "order of the target registry", "impl": list(tables["targets"])})
     ctx.obligation("no template loop receives a raw Python set at run time (probe on jinja2.runtime.LoopContext)", rawset == 0, kind="dynamic",
                    detail=f"{rawset} loops over raw sets")
 
@@ -468,11 +594,12 @@ def run(ctx):
         cid = sorted(multi)[0]
         breaks.append({"what": "one content identity, several digests (the model's ContentId misses an input of the renderer)", "cid": cid, "n": len(multi)})
     ctx.stats["content_ids"] = len(by_cid)
+    breaks = refusal_breaks + breaks
     ctx.stats["correspondence_breaks"] = len(breaks) + len(sort_breaks)
     if (breaks or sort_breaks) and not ctx.violations:
         first = sort_breaks[0] if sort_breaks else breaks[0]
         ctx.report("correspondence", "API/sort model and implementation disagree; determinism and history-freedom hold on everything sampled",
-                   {"correspondence": "c10.sort vs jinja do_sort; c10.run vs API histories", "first": first, "count": len(breaks) + len(sort_breaks)},
+                   {"correspondence": "c10.sort vs jinja do_sort; c10.refusal vs configured_targets / refusal; c10.run vs API histories", "first": first, "count": len(breaks) + len(sort_breaks)},
                    no_failing_input=True)
     elif breaks or sort_breaks:
         ctx.stats["correspondence_first"] = json.dumps((sort_breaks or breaks)[0])[:400]
